@@ -18,8 +18,9 @@ DESIGN_REF = 'DESIGN.md section 3 C14'
 LEVEL = 'exploration'
 RULE = ('Cases: (netlist, branchforks, SDF rendering seed). Non-trivial iff the entries of some instance are split over >= 2 CELL blocks and the file has an edge-qualified '
         'IOPATH. Distinct = digest of (Verilog text, SDF text, branchforks).')
-ASSUMPTIONS = ['INTERCONNECT entries are generated only where the documented precondition holds (a branch fork exists or the net has exactly one reader)',
-               'one IOPATH group per input pin (unqualified, or posedge/negedge without overlap); one or two value lists per entry; values >= 0 with three decimals']
+ASSUMPTIONS = ['entries are applied in file order: where two IOPATH entries address the same line and input polarity the later one wins, an empty value list reading as 0 there too',
+               'INTERCONNECT entries are generated only where the documented precondition holds (a branch fork exists or the net has exactly one reader)',
+               'one or two value lists per entry; values >= 0 with three decimals']
 REACH = {'sdf.DelayFile': ('sdf.py', 37, 136), 'sdf.transformer': ('sdf.py', 143, 170)}
 
 
@@ -32,7 +33,7 @@ def conclude(agg):
     c = agg['counters']
     return [f'monitor counter {k} is zero' for k in ('files', 'iopath_entries', 'interconnect_entries', 'split_instances', 'multi_toplevel_blocks', 'edge_qualified',
                                                      'empty_triples', 'partial_triples', 'single_value_lists', 'array_cells_compared', 'nonzero_expected', 'branchfork_cases',
-                                                     'plain_cases', 'escaped_instances', 'timingcheck_blocks')
+                                                     'plain_cases', 'escaped_instances', 'timingcheck_blocks', 'overlapping_entries')
             if c.get(k, 0) == 0]
 
 
@@ -94,11 +95,18 @@ def gen_sdf(rng, desc, c, lib, branchforks, stats):
                 ipin = p if edge is None else f'({edge} {p})'
                 if edge:
                     stats['edge_qualified'] += 1
-                ents.append(f'(IOPATH {ipin} {opin} {txt})')
+                ents.append((f'(IOPATH {ipin} {opin} {txt})', line.index, [0, 1] if edge is None else [0 if edge == 'posedge' else 1], v1, v2))
                 stats['iopath_entries'] += 1
-                for ip in ([0, 1] if edge is None else [0 if edge == 'posedge' else 1]):
-                    exp_io[:, line.index, ip, 0] = v1
-                    exp_io[:, line.index, ip, 1] = v2
+            if rng.random() < 0.2:
+                # a second, overlapping entry for the same pin (unqualified followed by a qualified one, or a repeated entry, possibly
+                # with empty value lists): entries are applied in file order, an empty list reads as 0 like everywhere else
+                edge = rng.choice([None, 'posedge', 'negedge'])
+                t1, v1 = triple(rng, stats)
+                t2, v2 = triple(rng, stats)
+                ipin = p if edge is None else f'({edge} {p})'
+                ents.append((f'(IOPATH {ipin} {opin} {t1} {t2})', line.index, [0, 1] if edge is None else [0 if edge == 'posedge' else 1], v1, v2))
+                stats['iopath_entries'] += 1
+                stats['overlapping_entries'] = stats.get('overlapping_entries', 0) + 1
         if ents:
             per_inst[inst['name']] = ents
     # interconnects
@@ -156,8 +164,17 @@ def gen_sdf(rng, desc, c, lib, branchforks, stats):
     for k in range(ntop):
         part = top_entries[k::ntop]
         blocks.append(f'(CELL (CELLTYPE "{desc["module"]}") (INSTANCE) (DELAY (ABSOLUTE {" ".join(part)})))')
+    inst_blocks = []
     for name, ents in per_inst.items():
-        rng.shuffle(ents)
+        if not any(True for _ in ents):
+            continue
+        # entries for one pin keep their relative order (the overlap semantics is sequential); different pins are shuffled
+        byline = {}
+        for e in ents:
+            byline.setdefault(e[1], []).append(e)
+        groups = list(byline.values())
+        rng.shuffle(groups)
+        ents = [e for g in groups for e in g]
         sname, escd = sdf_name(name, rng)
         if escd:
             stats['escaped_instances'] += 1
@@ -165,8 +182,11 @@ def gen_sdf(rng, desc, c, lib, branchforks, stats):
         if nblk > 1:
             stats['split_instances'] += 1
         cell = next(i['cell'] for i in desc['insts'] if i['name'] == name)
+        cuts = sorted(rng.sample(range(1, len(ents)), nblk - 1)) if nblk > 1 else []
+        parts = [ents[a:b_] for a, b_ in zip([0] + cuts, cuts + [len(ents)])]      # contiguous: file order = list order
         for k in range(nblk):
-            part = ents[k::nblk]
+            part_e = parts[k]
+            part = [e[0] for e in part_e]
             if len(part) >= 2 and rng.random() < 0.4:
                 h = len(part) // 2
                 body = f'(DELAY (ABSOLUTE {" ".join(part[:h])})) (DELAY (ABSOLUTE {" ".join(part[h:])}))'
@@ -176,8 +196,34 @@ def gen_sdf(rng, desc, c, lib, branchforks, stats):
             if rng.random() < 0.25:
                 tc = ' (TIMINGCHECK (SETUP D (posedge CK) (0.100:0.100:0.100)) (HOLD D (posedge CK) (0.050::0.050)))'
                 stats['timingcheck_blocks'] += 1
-            blocks.append(f'(CELL (CELLTYPE "{cell}") (INSTANCE {sname}) {body}{tc})')
-    rng.shuffle(blocks)
+            blocks.append((f'(CELL (CELLTYPE "{cell}") (INSTANCE {sname}) {body}{tc})', name, k, part_e))
+    # blocks of different instances are interleaved at random, the blocks of one instance keep their order
+    top_blocks = [b_ for b_ in blocks if isinstance(b_, str)]
+    inst_b = [b_ for b_ in blocks if not isinstance(b_, str)]
+    seqs = {}
+    for b_ in inst_b:
+        seqs.setdefault(b_[1], []).append(b_)
+    order = [nm for nm, lst in seqs.items() for _ in lst]
+    rng.shuffle(order)
+    laid = []
+    for nm in order:
+        laid.append(seqs[nm].pop(0))
+    for text, nm, k, part_e in laid:          # expectation in file order: a later entry for the same position wins
+        for _, li, pols, v1, v2 in part_e:
+            for ip in pols:
+                exp_io[:, li, ip, 0] = v1
+                exp_io[:, li, ip, 1] = v2
+    blocks = top_blocks + [b_[0] for b_ in laid]
+    mix = list(range(len(blocks)))
+    # keep relative order of instance blocks while mixing in the top-level blocks
+    pos_top = sorted(rng.sample(range(len(blocks)), len(top_blocks)))
+    out_blocks, ti, ii = [], 0, 0
+    for i in range(len(blocks)):
+        if ti < len(pos_top) and pos_top[ti] == i:
+            out_blocks.append(top_blocks[ti]); ti += 1
+        else:
+            out_blocks.append(laid[ii][0]); ii += 1
+    blocks = out_blocks
     lines = []
     for b_ in text_parts + blocks:
         if rng.random() < 0.15:
